@@ -2,9 +2,11 @@ package gosym
 
 import (
 	"bufio"
+	"crypto/sha256"
 	"fmt"
 	"io"
 	"math/big"
+	"os"
 	"os/exec"
 	"strings"
 	"time"
@@ -32,9 +34,11 @@ type Solver struct {
 	NUnk    int
 	Time    time.Duration
 	Errors  []string
+	Fallbacks int
 	timeout int
-	cache   map[string]cacheEnt
+	cache   map[[32]byte]cacheEnt
 	Log     io.Writer
+	sinceRestart int
 }
 
 type cacheEnt struct {
@@ -43,38 +47,56 @@ type cacheEnt struct {
 }
 
 func NewSolver(kind string, timeoutMs int) (*Solver, error) {
+	s := &Solver{Kind: kind, timeout: timeoutMs, cache: map[[32]byte]cacheEnt{}}
+	if s.Kind == "" {
+		s.Kind = "z3"
+	}
+	if err := s.start(); err != nil {
+		return nil, err
+	}
+	return s, nil
+}
+
+// start launches (or relaunches) the solver process. The process is recycled every few thousand
+// queries because a long push/pop session makes z3 grow without bound.
+func (s *Solver) start() error {
+	kind, timeoutMs := s.Kind, s.timeout
 	var cmd *exec.Cmd
 	switch kind {
 	case "", "z3":
-		kind = "z3"
 		cmd = exec.Command("z3", "-in", "-smt2")
 	case "z3-new":
 		cmd = exec.Command("z3-new", "-in", "-smt2")
 	case "cvc5":
 		cmd = exec.Command("cvc5", "--incremental", "--produce-models", "--lang=smt2", fmt.Sprintf("--tlimit-per=%d", timeoutMs))
 	default:
-		return nil, fmt.Errorf("unknown solver %q", kind)
+		return fmt.Errorf("unknown solver %q", kind)
 	}
 	in, err := cmd.StdinPipe()
 	if err != nil {
-		return nil, err
+		return err
 	}
 	out, err := cmd.StdoutPipe()
 	if err != nil {
-		return nil, err
+		return err
 	}
 	cmd.Stderr = cmd.Stdout
 	if err := cmd.Start(); err != nil {
-		return nil, err
+		return err
 	}
-	s := &Solver{Kind: kind, cmd: cmd, in: in, out: bufio.NewReaderSize(out, 1<<20), timeout: timeoutMs, cache: map[string]cacheEnt{}}
+	s.cmd, s.in, s.out, s.sinceRestart = cmd, in, bufio.NewReaderSize(out, 1<<20), 0
+	if p := os.Getenv("GOSYM_SMTLOG"); p != "" && s.Log == nil {
+		if f, err := os.OpenFile(fmt.Sprintf("%s.%d", p, cmd.Process.Pid), os.O_CREATE|os.O_WRONLY|os.O_TRUNC, 0o644); err == nil {
+			s.Log = f
+		}
+	}
 	if kind == "cvc5" {
 		s.send("(set-logic ALL)\n")
 	} else {
 		s.send("(set-option :produce-models true)\n")
-		s.send(fmt.Sprintf("(set-option :timeout %d)\n", timeoutMs))
+		s.send(fmt.Sprintf("(set-option :timeout %d)\n", timeoutMs/4)) // a query the incremental core cannot decide quickly goes to oneShot
 	}
-	return s, nil
+	return nil
 }
 
 func (s *Solver) send(txt string) {
@@ -144,11 +166,23 @@ func (s *Solver) Check(ts []*Term, wantModel bool) (SatResult, *Model) {
 	}
 	p := NewPrinter()
 	script, names := p.Script(live)
-	if e, ok := s.cache[script]; ok && (!wantModel || e.m != nil || e.r != Sat) {
+	key := sha256.Sum256([]byte(script))
+	if e, ok := s.cache[key]; ok && (!wantModel || e.m != nil || e.r != Sat) {
 		return e.r, e.m
 	}
 	start := time.Now()
 	s.Queries++
+	s.sinceRestart++
+	if s.sinceRestart > 5000 {
+		s.Close()
+		if err := s.start(); err != nil {
+			s.Errors = append(s.Errors, "solver restart failed: "+err.Error())
+			return Unknown, nil
+		}
+	}
+	if len(s.cache) > 200000 {
+		s.cache = map[[32]byte]cacheEnt{}
+	}
 	s.send("(push 1)\n" + script + "(check-sat)\n")
 	res := Unknown
 	for {
@@ -169,6 +203,9 @@ func (s *Solver) Check(ts []*Term, wantModel bool) (SatResult, *Model) {
 		}
 		if l == "unknown" || l == "timeout" {
 			res = Unknown
+			if s.Log != nil {
+				io.WriteString(s.Log, "; ^^^ UNKNOWN\n")
+			}
 			break
 		}
 		if strings.HasPrefix(l, "(error") {
@@ -193,6 +230,10 @@ func (s *Solver) Check(ts []*Term, wantModel bool) (SatResult, *Model) {
 		m = &Model{Vals: map[string]*Term{}}
 	}
 	s.send("(pop 1)\n")
+	if res == Unknown && len(s.Errors) == 0 {
+		// the incremental core gave up: decide the query in a fresh one-shot process (tactic-based solving)
+		res, m = s.oneShot(script, names, wantModel, p)
+	}
 	s.Time += time.Since(start)
 	switch res {
 	case Sat:
@@ -202,7 +243,7 @@ func (s *Solver) Check(ts []*Term, wantModel bool) (SatResult, *Model) {
 	default:
 		s.NUnk++
 	}
-	s.cache[script] = cacheEnt{res, m}
+	s.cache[key] = cacheEnt{res, m}
 	return res, m
 }
 
@@ -311,4 +352,37 @@ func parseModel(txt string, p *Printer) *Model {
 		}
 	}
 	return m
+}
+
+// oneShot decides a script in fresh solver processes (z3, then z3-new): without push/pop z3 applies its
+// pre-processing tactics and bit-blasting, which decides bit-vector arithmetic the incremental core does not.
+func (s *Solver) oneShot(script string, names []string, wantModel bool, p *Printer) (SatResult, *Model) {
+	s.Fallbacks++
+	for _, bin := range []string{"z3", "z3-new"} {
+		txt := fmt.Sprintf("(set-option :produce-models true)\n(set-option :timeout %d)\n%s(check-sat)\n", 2*s.timeout, script)
+		if wantModel && len(names) > 0 {
+			txt += "(get-value (" + strings.Join(names, " ") + "))\n"
+		}
+		cmd := exec.Command(bin, "-in", "-smt2")
+		cmd.Stdin = strings.NewReader(txt)
+		outb, _ := cmd.Output()
+		out := string(outb)
+		if strings.Contains(out, "(error") && !strings.HasPrefix(strings.TrimSpace(out), "unsat") {
+			continue
+		}
+		first := strings.TrimSpace(strings.SplitN(out, "\n", 2)[0])
+		switch first {
+		case "unsat":
+			return Unsat, nil
+		case "sat":
+			if !wantModel || len(names) == 0 {
+				return Sat, &Model{Vals: map[string]*Term{}}
+			}
+			rest := strings.SplitN(out, "\n", 2)
+			if len(rest) == 2 && !strings.Contains(rest[1], "(error") {
+				return Sat, parseModel(rest[1], p)
+			}
+		}
+	}
+	return Unknown, nil
 }
